@@ -49,6 +49,26 @@ STRENGTHENED = {
     "C18-agent4": "first contact: exit 2 (`entry is None`). The classification walker decides None-marker locals per branch; N1 then reports the 256 vendor codes that are classified as warnings",
     "C19-agent4": "caught as built (L2), after N3 learned table comprehensions and N14 one-element loops for the refactoring part",
     "C20-agent4": "caught as built (snapshot)",
+    "C01-agent5": "first contact: C01 silent (C04/C16 false alarms on the new inclusive bounds). NamedRange is now checked as an abstract data type - the constructor's bindings are substituted into the observers' path conditions (C04-V4 = C16-O4 = C01-W13): the off-by-one at the inclusive last bound is reported, the repaired commit is silent",
+    "C02-agent5": "caught from the start (the table lookup by exact type does not follow from the two guards); its refactoring part needed first-match tables, map(), conditional callables and one-expression helpers in the summaries",
+    "C03-agent5": "first contact: exit 2 (a table of regions, an open_region() generator helper). The specialiser evaluates lookups in literal tables and canonical decision keys (`element_value != TPM_RC.SUCCESS` is the response-code test); C03-R1 then reports the early return that leaves responseSize open",
+    "C04-agent5": "first contact: exit 2 in 16 checks. The spec model learned map() / islice() / straight-line table helpers; the slip is reported by the snapshot (V5). The *repaired* commit turned out not to be benign (see Appendix D): C20-T7",
+    "C05-agent5": "first contact: exit 2 in 12 checks (the pump's state moved into a `_LookAheadBytes` object). N22 dissolves local records into locals; C05-E2 gained: the running command code starts as None (it shares its name with the pump's argument) - the seeded slip",
+    "C06-agent5": "first contact: reported only through false alarms on the anticipate()/bytes_parsed() split. C06 gained X3: every resolvable call in the decode core supplies its callee's required parameters (the missing `violator_value` is a TypeError)",
+    "C07-agent5": "caught from the start (NI-3: the dropped `yield`), with false-alarm companions on the cross-module warn_or_raise() helper; new imported functions are now expanded across modules, NI-3 follows a warning stored in a local",
+    "C08-agent5": "first contact: exit 2 (`self.skip_remaining()` without `yield from`). New shared rule `discarded generators` (C08-Y7 = C03-R9 = C01-W12) and C03-R8 (outcome tables of bytes_parsed / assert_done)",
+    "C09-agent5": "caught from the start (S5: the lost command-code reset in events_to_objs)",
+    "C10-agent5": "first contact: C10 silent. C10 gained T6: a scanner may start only one traversal of its raw `buffer` parameter (a bytes / list source restarts at every traversal)",
+    "C11-agent5": "first contact: C11 silent (C01-W7 fired). C11 gained A7 = C01-W7: a union arm without payload decodes to None",
+    "C12-agent5": "first contact: C12 silent, C09 exit 2 (is_parameter_encryption changed its signature). S3 identifies the parameters by role; C12 gained P5 = C09-S2 (nothing is carried over between the pairs of a stream)",
+    "C13-agent5": "reported by the target, but through rules that also fire on the repaired commit (bytes_parsed became a plain method, the skip moved to the caller): an architecture-level redistribution that the rules do not follow (section 7)",
+    "C14-agent5": "caught from the start, for the right reason only after Q4 stopped accepting str(value) as the value's text form (handle types format symbolically, str() gives the number)",
+    "C15-agent5": "exit 2: the scanner's state representation was rewritten (marker progress as a count, an Enum, a for loop over a helper generator); the transition table cannot be compared (section 7)",
+    "C16-agent5": "first contact: exit 2 in 6 checks (`__init_subclass__` hook deriving the value sets). The spec model now runs such hooks; the slip (hasattr instead of vars) is reported by the snapshot",
+    "C17-agent5": "first contact: exit 2 (the accessor class moved and was renamed). The parts of tpm_bitfield are located by role; M2 gained: attributes() must not iterate a generator created once at decoration time",
+    "C18-agent5": "first contact: exit 2 (`if not code`). The classification walker decides the truthiness of masked locals; N1 reports the codes whose number is 0",
+    "C19-agent5": "first contact: exit 2 (argparse choices taken from a table). L1 reads choices from table keys, L4 binds the Canonical(...) call to the constructor's signature: the dropped format_in falls back to the default",
+    "C20-agent5": "first contact: exit 2 in 17 checks (handle ranges built by a helper function). The spec model evaluates straight-line helper functions with defaults / keywords; the off-by-one range is reported by the snapshot",
 }
 rows = []
 for m in sorted(glob.glob(os.path.join(os.path.dirname(os.path.dirname(os.path.abspath(__file__))), "seeded", "*", "meta.json"))):
